@@ -62,6 +62,7 @@ type Contract struct {
 	Assumed   string
 	Pure      bool
 	Determ    bool
+	NoWorld   bool
 	Loops     map[int]*LoopSpec
 	Ranges    map[int]*RangeSpec
 	Callsites []CallsiteSpec
@@ -126,7 +127,7 @@ func newContractSet() *ContractSet {
 var clauseKeywords = map[string]bool{
 	"func": true, "interface": true, "type": true, "ghost": true, "spec": true, "lemma": true, "syncmap": true,
 	"props": true, "requires": true, "ensures": true, "modifies": true, "nopanic": true, "maypanic": true,
-	"inline": true, "assumed": true, "pure": true, "use": true, "deterministic": true, "loop": true, "range": true, "callsite": true, "decreases": true,
+	"inline": true, "assumed": true, "pure": true, "use": true, "deterministic": true, "noworld": true, "loop": true, "range": true, "callsite": true, "decreases": true,
 }
 
 func firstWord(s string) string {
@@ -462,6 +463,8 @@ func (c *Contract) addClause(kw, rest string) error {
 		c.Pure = true
 	case "deterministic":
 		c.Determ = true
+	case "noworld":
+		c.NoWorld = true
 	case "assumed":
 		l, _ := splitLabel(rest)
 		c.Assumed = l
